@@ -5,7 +5,8 @@
    kind i = true: pack i is a tree pack.  content k: the bytes that belong to id k
    (content addressing: the same id is always written with the same bytes). *)
 From Verif.Base Require Import Tactics.
-From Verif.C16 Require Import ModelBase Extracted Model Proofs Proofs2 Proofs3 Proofs4.
+From Verif.C16 Require Import ModelBase Extracted Model Proofs Proofs2 Proofs3 Proofs4 Warmup ProofsWarm.
+From Verif.C14 Require Model.
 Local Open Scope N_scope.
 
 (* After EVERY inner call (micro-step) of EVERY sequence of write_bytes / remove / save_config
@@ -135,3 +136,94 @@ Print Assumptions repair_restores_hot_from_index.
 Example index_names_sat :
   index_names (fun i => N.eqb i 2) [mkie SecPacksToDelete 2 Tree; mkie SecPacks 3 Data].
 Proof. intro i. cbn. destruct (N.eqb i 2) eqn:E; rewrite ?orb_false_r, ?andb_false_r; reflexivity. Qed.
+
+(* ======================================================================= warm-up
+   "Restore, prune repacking and index repair request warm-up of every pack they are about to read
+   from a cold store before reading it."  Each command's read part is modelled as: compute W, call
+   warm_up_wait(W), then read R - in the order and with the set expression found in the source
+   (restore_phases / restore_warm_set, ... in Extracted.v). *)
+
+(* A cold store that rejects un-warmed reads never rejects a read of a sequence in which every read is
+   preceded by a warm-up of the same file - whether it is warmed by its own warm_up call (WExplicit)
+   or by access (WAccess, RepositoryOptions::warm_up). *)
+Theorem cold_store_serves_disciplined_reads : forall m evs,
+  disciplined_from [] evs = true -> all_served (cold_run m [] evs) = true.
+Proof. exact no_rejected_read_lemma. Qed.
+Print Assumptions cold_store_serves_disciplined_reads.
+
+(* The same through the wrappers: requests to the repository backend (warm_up, read_full, read_partial,
+   routed as HotColdBackend and - for warm-up by access - WarmUpAccessBackend route them) and reads of
+   the cold backend itself.  If every read that is routed to the cold store is preceded by a warm-up
+   request for that file, no read is rejected.  Needs: warm-up requests of EVERY file type reach the
+   cold store (breaks when WarmUpAccessBackend is wrapped around the hot/cold backend). *)
+Theorem hotcold_no_rejected_read : forall m evs,
+  h_disciplined_from [] evs = true ->
+  all_served (cold_run m [] (flat_map (to_cold m) evs)) = true.
+Proof. exact hotcold_no_rejected_read_lemma. Qed.
+Print Assumptions hotcold_no_rejected_read.
+
+Example hotcold_disciplined_sat :
+  h_disciplined_from [] [HWarm (Key, 1); HColdRead (Key, 1); HWarm (Pack, 2); HReadPartial (Pack, 2) false;
+                         HReadFull (Snapshot, 9); HReadPartial (Pack, 5) true] = true.
+Proof. reflexivity. Qed.
+
+(* restore: every pack read by restore_contents (model and theorem of C14) is in RestorePlan::to_packs,
+   the set handed to warm_up_wait before restore_contents; hence no read is rejected. *)
+Theorem restore_warms_what_it_reads : forall c o droot roots s,
+  let res := C14.Model.restore c o droot roots s in incl (restore_read res) (restore_warmed res).
+Proof. exact restore_warms_lemma. Qed.
+Print Assumptions restore_warms_what_it_reads.
+
+Theorem restore_reads_never_rejected : forall m c o droot roots s,
+  let res := C14.Model.restore c o droot roots s in
+  all_served (cmd_cold_results m restore_phases (restore_warmed res) (restore_read res) false) = true.
+Proof. exact restore_served_lemma. Qed.
+Print Assumptions restore_reads_never_rejected.
+
+(* prune: every pack the repack loop reads (decision handed to the loop, one read per chunk of kept
+   blobs, any used set, any coalescing) is in PrunePlan::repack_packs, warmed before the loop. *)
+Theorem prune_repack_warms_what_it_reads : forall chunks pl used reads,
+  prune_read chunks pl used = Some reads -> incl reads (prune_warmed pl).
+Proof. exact prune_warms_lemma. Qed.
+Print Assumptions prune_repack_warms_what_it_reads.
+
+Theorem prune_repack_reads_never_rejected : forall m chunks pl used reads c,
+  prune_read chunks pl used = Some reads ->
+  all_served (cmd_cold_results m prune_phases (prune_warmed pl) reads c) = true.
+Proof. exact prune_served_lemma. Qed.
+Print Assumptions prune_repack_reads_never_rejected.
+
+Example prune_read_sat :
+  prune_read (fun bs => length bs) [[mkpp 1 Keep [10]; mkpp 2 Repack [11; 12]]; [mkpp 3 Delete []]] [11; 12] = Some [2; 2].
+Proof. reflexivity. Qed.
+
+(* repair index (repair_index and index_checked_from_collector): the packs whose header is read
+   (PackChecker::into_pack_to_read, once or twice each) are exactly the set warmed before the loop. *)
+Theorem repair_index_warms_what_it_reads : forall nreads read_all listing ix,
+  let prh := pack_read_header read_all listing ix in
+  incl (repair_read nreads prh) (repair_warmed repair_index_warm_set prh) /\
+  incl (repair_read nreads prh) (repair_warmed index_checked_warm_set prh).
+Proof. exact repair_index_warms_lemma. Qed.
+Print Assumptions repair_index_warms_what_it_reads.
+
+Theorem repair_index_reads_never_rejected : forall m nreads read_all listing ix,
+  let prh := pack_read_header read_all listing ix in
+  all_served (cmd_cold_results m repair_index_phases (repair_warmed repair_index_warm_set prh) (repair_read nreads prh) false) = true /\
+  all_served (cmd_cold_results m index_checked_phases (repair_warmed index_checked_warm_set prh) (repair_read nreads prh) false) = true.
+Proof. exact repair_index_served_lemma. Qed.
+Print Assumptions repair_index_reads_never_rejected.
+
+Example pack_read_header_sat :
+  pack_read_header false [(1, 100); (2, 200); (3, 300)] [(1, 100); (2, 150)] = [2; 3].
+Proof. reflexivity. Qed.
+
+(* The discipline is necessary: an un-warmed read is rejected; reading before warming, not warming at
+   all, or warming a different pack makes the cold store reject the read. *)
+Theorem unwarmed_read_rejected :
+  cold_run WExplicit [] [LRead (Pack, 3)] = [false] /\
+  cold_run WAccess [] [LRead (Pack, 3); LRead (Pack, 3)] = [false; true] /\
+  all_served (cmd_cold_results WExplicit [PhRead; PhWarm] [3] [3] false) = false /\
+  all_served (cmd_cold_results WExplicit [PhRead] [] [3] false) = false /\
+  all_served (cmd_cold_results WExplicit [PhWarm; PhRead] [4] [3] false) = false.
+Proof. exact unwarmed_read_rejected_lemma. Qed.
+Print Assumptions unwarmed_read_rejected.
